@@ -427,7 +427,12 @@ func preimageParts(fn *ssa.Function, at ssa.Instruction, v ssa.Value) ([]string,
 				if srcSl, isS := k.Call.Args[1].(*ssa.Slice); isS {
 					if sa, isSA := srcSl.X.Type().Underlying().(*types.Pointer); isSA {
 						if sarr, isArr2 := sa.Elem().Underlying().(*types.Array); isArr2 && sarr.Len() != hi-lo {
-							what = "?"
+							// copy(dst[lo:], src) with an open upper bound writes exactly len(src) bytes when they fit
+							if x.High == nil && lo+sarr.Len() <= arr.Len() {
+								hi = lo + sarr.Len()
+							} else {
+								what = "?"
+							}
 						}
 					}
 				} else {
